@@ -19,6 +19,7 @@ type State struct {
 	next  string
 	epoch int
 	armed map[*ssa.Defer]string
+	tagLo string // every id in [tagLo, next) carries no tag of a struct type the contracts mention (idtags.go); "" = unknown
 	// merges: heap versions introduced at control-flow joins of this function, with the incoming (reach, version)
 	// pairs they select from (shared by all states of one function; used to split frame goals per branch)
 	merges map[string][]mergeBranch
@@ -37,7 +38,7 @@ func (s *State) Heap(name string) string {
 func (s *State) Next() string { return s.next }
 
 func (s *State) clone() *State {
-	n := &State{g: s.g, reach: s.reach, heaps: map[string]string{}, next: s.next, epoch: s.epoch, armed: map[*ssa.Defer]string{}, merges: s.merges}
+	n := &State{g: s.g, reach: s.reach, heaps: map[string]string{}, next: s.next, epoch: s.epoch, armed: map[*ssa.Defer]string{}, tagLo: s.tagLo, merges: s.merges}
 	for k, v := range s.heaps {
 		n.heaps[k] = v
 	}
@@ -163,6 +164,15 @@ func (c *FnCtx) oblName(path, kind string) string {
 func (c *FnCtx) oblige(st *State, path, kind, goal, desc string, pos token.Pos) {
 	if goal == "true" {
 		return
+	}
+	if strings.HasPrefix(kind, "safety:") && c.contract != nil && c.contract.NoPanicAssumed && path == c.contract.FullKey() {
+		// assume-no-panic: the check is assumed to pass (executions that panic are outside the claim)
+		c.assume(st, goal)
+		c.assumed["run-time checks (nil, index, slice bounds, ...) of "+c.contract.FullKey()+" are assumed to pass: its contract speaks about the executions that do not panic"] = true
+		return
+	}
+	if st.tagLo != "" && st.tagLo != st.next && (strings.HasPrefix(kind, "post") || strings.HasPrefix(kind, "pre@") || strings.Contains(kind, "inv-")) && c.g.mentionsTags(goal) {
+		c.emitTagFree(st)
 	}
 	if len(c.snaps) > 0 && (strings.HasPrefix(kind, "post") || strings.HasPrefix(kind, "pre@") || strings.Contains(kind, "inv-")) && c.mentionsRecursiveDcs(goal) {
 		if c.dcsDone == nil {
@@ -414,6 +424,28 @@ func (c *FnCtx) mergeStates(sts []*State) *State {
 		}
 		out.next = c.define("next", SInt, t)
 	}
+	// tag-free interval: per incoming path [tagLo_i, next_i); the join takes the path's own bounds
+	sameLo, known := true, true
+	for _, s := range sts {
+		if s.tagLo != sts[0].tagLo {
+			sameLo = false
+		}
+		if s.tagLo == "" {
+			known = false
+		}
+	}
+	switch {
+	case !known:
+		out.tagLo = ""
+	case sameLo:
+		out.tagLo = sts[0].tagLo
+	default:
+		t := sts[len(sts)-1].tagLo
+		for i := len(sts) - 2; i >= 0; i-- {
+			t = fmt.Sprintf("(ite %s %s %s)", sts[i].reach, sts[i].tagLo, t)
+		}
+		out.tagLo = c.define("taglo", SInt, t)
+	}
 	// defers
 	dn := map[*ssa.Defer]bool{}
 	for _, s := range sts {
@@ -639,8 +671,20 @@ func (f *frame) load(p Val, elem types.Type, st *State) string {
 	if isStruct(elem) {
 		return g.LoadLoc(&LV{Root: elem, Path: "", Base: p.T}, st)
 	}
-	if _, isArr := elem.Underlying().(*types.Array); isArr {
-		subsetf("load of array value")
+	if at, isArr := elem.Underlying().(*types.Array); isArr {
+		if strings.HasPrefix(p.T, "(obj ") {
+			// an array variable (its cells live in the element heap at elem(id, k)): collect them into a value
+			if at.Len() > 16 {
+				subsetf("load of a large array value")
+			}
+			v := f.c.declare("arrval", g.TE.SortOf(elem))
+			eh := g.TE.CellHeap(at.Elem())
+			for k := 0; k < int(at.Len()); k++ {
+				f.c.assume(st, fmt.Sprintf("(= (select %s %d) (select %s (elem (oid %s) %d)))", v, k, st.Heap(eh), p.T, k))
+			}
+			return v
+		}
+		// an array stored as one cell (element of a slice of arrays)
 	}
 	h := g.TE.CellHeap(elem)
 	return fmt.Sprintf("(select %s %s)", st.Heap(h), p.T)
@@ -694,8 +738,15 @@ func (f *frame) store(p Val, elem types.Type, v string, st *State) {
 	if p.T == "" {
 		subsetf("store through unmodelled pointer")
 	}
-	if _, isArr := elem.Underlying().(*types.Array); isArr {
-		subsetf("store of array value")
+	if at, isArr := elem.Underlying().(*types.Array); isArr && strings.HasPrefix(p.T, "(obj ") {
+		if at.Len() > 16 {
+			subsetf("store of a large array value")
+		}
+		eh := g.TE.CellHeap(at.Elem())
+		for k := 0; k < int(at.Len()); k++ {
+			f.storeHeap(st, eh, fmt.Sprintf("(elem (oid %s) %d)", p.T, k), fmt.Sprintf("(select %s %d)", v, k))
+		}
+		return
 	}
 	h := g.TE.CellHeap(elem)
 	f.storeHeap(st, h, p.T, v)
@@ -773,18 +824,20 @@ func (f *frame) tagAlloc(st *State, id string, t types.Type) { f.tagAllocKind(st
 // object id is not a cell of an array of T).
 func (f *frame) tagAllocKind(st *State, id string, t types.Type, array bool) {
 	g := f.c.g
-	if !isStruct(t) {
-		return
-	}
-	if _, ok := t.(*types.Named); !ok {
-		return
-	}
-	tag := g.TE.Tag(t)
-	if !array {
-		tag = -tag
+	tag := 0 // anything that is not a named struct type (maps, strings' bytes, interface arrays, ...)
+	if _, ok := t.(*types.Named); ok && isStruct(t) {
+		tag = g.TE.Tag(t)
+		if !array {
+			tag = -tag
+		}
 	}
 	// under the path condition: allocations on mutually exclusive paths may receive the same id
 	f.c.assume(st, fmt.Sprintf("(= (%s %s) %s)", g.idTagUF(), id, smtInt(tag)))
+	if tag > 0 {
+		if _, mentioned := g.tagTypes()[g.TE.TypeName(t)]; mentioned {
+			st.tagLo = st.next // an array of a mentioned struct type: the tag-free interval restarts after it
+		}
+	}
 }
 
 func smtInt(n int) string {
